@@ -36,7 +36,7 @@ def _xml(r):
   wb, act, sen = "", "", ""
   for i in range(n):
     t = str(r.choice(["slide", "hinge"]))
-    wb += f'    <body pos="{i} 0 0"><joint name="j{i}" type="{t}" axis="0 0 1" damping="{round(float(r.uniform(0.5, 3)), 3)}" stiffness="{round(float(r.uniform(0, 20)), 3)}"/><geom size="0.1" mass="{round(float(r.uniform(0.5, 3)), 3)}"/></body>\n'
+    wb += f'    <body name="b{i}" pos="{i} 0 0"><joint name="j{i}" type="{t}" axis="0 0 1" damping="{round(float(r.uniform(0.5, 3)), 3)}" stiffness="{round(float(r.uniform(0, 20)), 3)}"/><geom size="0.1" mass="{round(float(r.uniform(0.5, 3)), 3)}"/></body>\n'
     for a in range(int(r.integers(1, 3))):
       attr = ""
       if r.random() < 0.8:
@@ -46,7 +46,7 @@ def _xml(r):
         attr += f' interp="{r.choice(["zoh", "linear", "cubic"])}"'
       act += f'    <motor name="a{i}_{a}" joint="j{i}" gear="1"{attr}/>\n'
     for s in range(int(r.integers(0, 3))):
-      kind = str(r.choice(["jointpos", "jointvel", "jointpos"]))
+      kind = str(r.choice(["jointpos", "jointvel", "jointpos", "framepos", "framelinvel", "frameangvel", "framequat"]))
       attr = ""
       if r.random() < 0.85:
         attr += f' nsample="{int(r.integers(1, 7))}"'
@@ -54,7 +54,11 @@ def _xml(r):
           attr += f' delay="{float(r.choice([1, 2, 4, 7])) * dt!r}" interp="{r.choice(["zoh", "linear", "cubic"])}"'
         if r.random() < 0.4:
           attr += f' interval="{float(r.choice([1, 2, 3])) * dt!r}"'
-      sen += f'    <{kind} name="s{i}_{s}" joint="j{i}"{attr}/>\n'
+      if kind.startswith("frame"):
+        # vector-valued samples (dim 3 / 4): every stored component has to be delayed, wrapped and reset, not only the first
+        sen += f'    <{kind} name="s{i}_{s}" objtype="body" objname="b{i}"{attr}/>\n'
+      else:
+        sen += f'    <{kind} name="s{i}_{s}" joint="j{i}"{attr}/>\n'
   if r.random() < 0.3:
     sen += f'    <clock name="clk" nsample="3" delay="{2 * dt!r}"/>\n'
   xml = f'<mujoco>\n  <option timestep="{dt!r}" gravity="0 0 0" integrator="{r.choice(["Euler", "implicitfast"])}"/>\n  <worldbody>\n{wb}  </worldbody>\n  <actuator>\n{act}  </actuator>\n'
@@ -123,9 +127,17 @@ def run(sc):
     for _ in range(int(r.integers(3, 25))):
       set_ctrl()
       both_step()
-    mjw.reset_data(m, d)
-    for w in range(nworld):
-      mujoco.mj_resetData(mjm, mjds[w])
+    if nworld > 1 and r.random() < 0.5:
+      # masked reset: only the last world restarts, the other keeps its buffers mid-history
+      mask = np.zeros(nworld, dtype=bool)
+      mask[-1] = True
+      mjw.reset_data(m, d, wp.array(mask, dtype=bool))
+      mujoco.mj_resetData(mjm, mjds[-1])
+      faults["masked_reset_before_history"] = 1
+    else:
+      mjw.reset_data(m, d)
+      for w in range(nworld):
+        mujoco.mj_resetData(mjm, mjds[w])
     faults["reset_before_history"] = 1
   elif start == "init":
     for a in range(mjm.nu):
